@@ -408,11 +408,11 @@ def gen_sys_builtin(rng, N):
 def generate(rng, tier):
     q = (tier == "quick")
     cases = []
-    cases += gen_scalar_f64(rng.fork("sf"), 210 if q else 2100)
-    cases += gen_scalar_cplx(rng.fork("sc"), 100 if q else 1000)
-    cases += gen_scalar_termination(rng.fork("st"), 84 if q else 560)
-    cases += gen_systems(rng.fork("sys"), 120 if q else 1000)
-    cases += gen_sys_termination(rng.fork("syst"), 48 if q else 240)
+    cases += gen_scalar_f64(rng.fork("sf"), 210 if q else 1470)
+    cases += gen_scalar_cplx(rng.fork("sc"), 100 if q else 700)
+    cases += gen_scalar_termination(rng.fork("st"), 84 if q else 420)
+    cases += gen_systems(rng.fork("sys"), 120 if q else 720)
+    cases += gen_sys_termination(rng.fork("syst"), 48 if q else 180)
     cases += gen_scalar_builtin(rng.fork("sb"), 220 if q else 2200)
     cases += gen_sys_builtin(rng.fork("sysb"), 80 if q else 800)
     # spread heavy and light cases over the model shards
